@@ -39,6 +39,7 @@ type h5World struct {
 	born   time.Time
 	seenTid map[[stun.TransactionIDSize]byte]bool
 	byTid  map[[stun.TransactionIDSize]byte]string // a retransmission gets the reaction of its transaction
+	lastFrom net.Addr // the address object the last successful ReadFrom handed to the application
 }
 
 func (w *h5World) add(s string) { w.mu.Lock(); w.wire = append(w.wire, s); w.mu.Unlock() }
@@ -414,6 +415,7 @@ func (w *h5World) read() {
 		switch {
 		case err == nil:
 			res = fmt.Sprintf("rd %s %s", canonAddr(from), vhHex(buf[:n]))
+			w.lastFrom = from
 		case strings.Contains(err.Error(), "closed"):
 			res = "rderr closed"
 		default:
@@ -492,6 +494,39 @@ func TestVerifH5(t *testing.T) {
 		w.read()
 		dst.Port = 9000
 		w.write(dst, []byte{4}, nil, nil)
+		w.finish()
+	})
+	// directed: the application EDITS the address ReadFrom gave it (net.UDPConn hands out a fresh one per call, so that is
+	// legal): the binding must keep naming its peer - for the next ReadFrom, for the next write and for the bind refresh
+	synctest.Test(t, func(t *testing.T) {
+		w := newH5World(vt)
+		vt.Op("cnew")
+		vt.Obs("ok")
+		dst := &net.UDPAddr{IP: net.ParseIP("10.0.0.9").To4(), Port: 9000}
+		w.write(dst, []byte{1}, nil, []string{"ok"})
+		w.write(dst, []byte{2}, nil, nil)
+		for i := 0; i < 2; i++ {
+			cd := proto.ChannelData{Number: 0x4000, Data: []byte{0xa0, byte(i)}}
+			cd.Encode()
+			w.inbound("cdat", nil, cd.Raw, false)
+			w.read()
+			if u, ok := w.lastFrom.(*net.UDPAddr); ok {
+				u.Port = 7777 // "answer on another port"
+				u.IP = net.ParseIP("10.0.0.77").To4()
+			}
+		}
+		w.inbound("dind", dst, []byte{0xb0}, false)
+		w.read()
+		if u, ok := w.lastFrom.(*net.UDPAddr); ok {
+			u.Port = 7777
+		}
+		w.inbound("dind", dst, []byte{0xb1}, false)
+		w.read()
+		w.write(dst, []byte{3}, nil, nil)
+		vt.OpSync("cadv 301") // past the binding's refresh interval: the ChannelBind refresh names the original peer
+		time.Sleep(301 * time.Second)
+		w.obs()
+		w.write(dst, []byte{4}, nil, []string{"ok"})
 		w.finish()
 	})
 	for h := 0; h < nh; h++ {
